@@ -641,8 +641,12 @@ def plume_head(P, rep, rule="EXPR.plumehead"):
     xr = (px - cx) * sp.cos(th) + (py - cy) * sp.sin(th)
     yr = -(px - cx) * sp.sin(th) + (py - cy) * sp.cos(th)
     want = xr ** 2 / A ** 2 + yr ** 2 / (A ** 2 * (1 - E_ ** 2)) + (D0 - d) ** 2 / (D0 - dmin) ** 2
+    known = {A, E_, D0, dmin, d, th, px, py, cx, cy}
     if val is not None and eq(val, want):
         rep.ok(rule, "plume head: x'^2/a^2 + y'^2/(a^2(1-e^2)) + (D0-depth)^2/(D0-min_depth)^2", F.nloc(H), F.qn)
+    elif val is None or (val.free_symbols - known):
+        # the head is computed from names this rule does not know (renamed locals, a struct of per-depth values): cannot judge
+        rep.unknown(rule, "plume head: the relative distance is written over quantities this rule does not recognise: %s" % sorted(str(q) for q in (val.free_symbols - known))[:6] if val is not None else "plume head: relative_distance_from_center is not assigned in the head branch")
     else:
         rep.violation(rule, "plume head relative distance is %s" % str(val)[:120], F.nloc(H), F.qn, str(val)[:200], "expected the half-ellipsoid equation", key=rule + "|formula",
                       witness="point in the plume head off the axis")
